@@ -1204,7 +1204,11 @@ def signature(case, obs, msg):
             return "unresolved-import-valueerror"
         return None
     if k == "err" and obs.get("outcome") == "timeout":
-        if obs.get("version") == "1.0" and _last_line_is_bodyless_define(obs.get("content", "")):
+        recs = (obs.get("num") or {}).get("ok")
+        last_is_define = (bool(recs) and re.match(r"(define|def)\s+(?!user\b)\S", recs[-1][0]) is not None) if recs is not None \
+            else _last_line_is_bodyless_define(obs.get("content", ""))
+        # the last *numbered* line (what the parser sees: blank lines, comments and an unterminated `"""` comment are gone)
+        if obs.get("version") == "1.0" and last_is_define:
             return "v1-define-without-body-at-eof-hang"
         return None
     if k in ("tok", "v2", "file") and obs.get("version") == "2.x" and not obs.get("sweep"):
